@@ -11,7 +11,7 @@ CHECKS = {
    note="Assumes page-granular atomic writes (only the 84-byte header may tear), sync makes all earlier writes durable, truncate is a droppable ordered metadata op. Simulated vfs.File replaces osfs."),
  "C02": dict(level="exploration", ref="6/C02", technique="deterministic simulation: seeded schedule exploration of one writer and several readers with per-reader snapshot oracle",
    text="Readers and a writer run as cooperative tasks; the PRNG picks who runs at every txfile hook and disk call. Every reader must observe, twice, exactly one committed model state within the window allowed by the begin/commit event order; poisoned unmapped views expose use-after-remap.",
-   note="Interleavings only at yield points (hooks + disk calls). Seeded sampling."),
+   note="Interleavings only at yield points (hooks + disk calls). Seeded sampling; per-run scheduling policy (stickiness, background weight) and task starvation episodes (a task woken from a condition wait is held back until another task reaches a drawn yield point)."),
  "C03": dict(level="exploration", ref="6/C03", technique="deterministic simulation: model-based differential execution of seeded transaction histories under scheduler-controlled writer batching",
    text="Seeded histories of all page/transaction operations (incl. handles fetched long before use, overflow-enabled fill-to-the-brim transactions, a rare huge-checkpoint variant) run against the real engine on a simulated disk and against a map-based reference model; reads inside the write transaction, after every transaction and after reopen must equal the model byte for byte. The scheduler starves or favours the background writer so that batches of queued writes vary.",
    note="Seeded sampling of histories, configurations and writer timings; simulated vfs.File replaces osfs."),
